@@ -149,6 +149,9 @@ def index_in_bounds(idx, cont, facts, prog, func):
         upper = any(a == ip and op == '<' and b == size for (_, a, op, b) in B) or \
             any(a == ip and op in ('<', '<=') and b.isdigit() and size_at_least(int(b) + (1 if op == '<=' else 0))
                 for (_, a, op, b) in B)
+        if not upper and _unsigned(idx) and _loop_starts_at(func, ip, 0):
+            # for (i = L; i + k < size(); ++i): i only grows from a literal, so i + k never wraps and i < size()
+            upper = any(re.match(r'^%s\+\d+$' % re.escape(ip), a) and op == '<' and b == size for (_, a, op, b) in B)
         lower = _unsigned(idx) or any(a == ip and ((op == '>=' and b.lstrip('-').isdigit() and int(b) >= 0) or
                                                    (op == '>' and b.lstrip('-').isdigit() and int(b) >= -1))
                                       for (_, a, op, b) in B)
